@@ -20,6 +20,9 @@ struct Params {
     /// sends issued while the peers are still joining
     early_sends: usize,
     policy: u8,
+    /// what the peers announce: 0 = distinct identities, 1 = an Identity property of length 0 (what libzmq peers without
+    /// a routing id send), 2 = no Identity property
+    anon: u8,
 }
 
 fn message(shape: u8, i: usize) -> Vec<Vec<u8>> {
@@ -64,7 +67,8 @@ fn scenario(pr: &Params) -> Verdict {
     let n = pr.peers;
     let conns: Vec<e3::RawConn> = (0..n).map(|p| e3::raw_conn(&format!("P{}", p))).collect();
     for (p, c) in conns.iter().enumerate() {
-        c.send(&rc::handshake(ty.peer_type(), Some(format!("ID{}", p).as_bytes())));
+        let idp = format!("ID{}", p);
+        c.send(&rc::handshake(ty.peer_type(), match pr.anon { 0 => Some(idp.as_bytes()), 1 => Some(&b""[..]), _ => None }));
         if ty == Ty::Req {
             e3::make_echo_peer(*c);
         }
@@ -725,7 +729,7 @@ fn cancel_scenario(ty: Ty, peers: usize, shape: u8, how: u8, policy: u8) -> Verd
 }
 
 fn pj(p: &Params) -> Value {
-    json!({"type": p.ty.name(), "peers": p.peers, "shape": p.shape, "wmode": p.wmode, "early_sends": p.early_sends, "policy": p.policy})
+    json!({"type": p.ty.name(), "peers": p.peers, "shape": p.shape, "wmode": p.wmode, "early_sends": p.early_sends, "policy": p.policy, "anon": p.anon})
 }
 
 fn pf(v: &Value) -> Option<Params> {
@@ -736,6 +740,7 @@ fn pf(v: &Value) -> Option<Params> {
         wmode: v["wmode"].as_u64()? as u8,
         early_sends: v["early_sends"].as_u64()? as usize,
         policy: v["policy"].as_u64().unwrap_or(0) as u8,
+        anon: v["anon"].as_u64().unwrap_or(0) as u8,
     })
 }
 
@@ -783,7 +788,7 @@ pub fn run(tier: Tier, replay: Option<String>) -> i32 {
                             if shape == 2 && (policy != 0 || early != 0) && tier == Tier::Quick {
                                 continue;
                             }
-                            let pr = Params { ty, peers, shape, wmode, early_sends: early, policy };
+                            let pr = Params { ty, peers, shape, wmode, early_sends: early, policy, anon: 0 };
                             let pr2 = pr.clone();
                             jobs.push(e3::job(
                                 format!("C10/{}/{}p/shape{}/w{}/early{}/policy{}", ty.name(), peers, shape, wmode, early, policy),
@@ -803,6 +808,18 @@ pub fn run(tier: Tier, replay: Option<String>) -> i32 {
                             }
                         }
                     }
+                }
+            }
+        }
+    }
+    // peers that announce an empty identity, or none: every one of them is in the rotation all the same
+    for ty in [Ty::Push, Ty::Dealer, Ty::Req] {
+        for peers in 2..=3usize {
+            for anon in [1u8, 2] {
+                for policy in 0..3u8 {
+                    let pr = Params { ty, peers, shape: 0, wmode: 0, early_sends: 0, policy, anon };
+                    let pr2 = pr.clone();
+                    jobs.push(e3::job(format!("C10/{}/{}p/anon{}/policy{}", ty.name(), peers, anon, policy), pj(&pr), tier.pick(1, 2), 100_000, move || scenario(&pr2)));
                 }
             }
         }
@@ -837,7 +854,7 @@ pub fn run(tier: Tier, replay: Option<String>) -> i32 {
         for &peers in tier.pick(&[9usize, 17, 33, 65, 130][..], &[9usize, 17, 33, 65, 130, 257, 520][..]) {
             for policy in 0..3u8 {
                 for early in [0usize, 2] {
-                    let pr = Params { ty, peers, shape: 0, wmode: 0, early_sends: early, policy };
+                    let pr = Params { ty, peers, shape: 0, wmode: 0, early_sends: early, policy, anon: 0 };
                     let pr2 = pr.clone();
                     jobs.push(e3::job(format!("C10/scale/{}/{}p/early{}/policy{}", ty.name(), peers, early, policy), pj(&pr), 0, 1000, move || scenario(&pr2)));
                 }
